@@ -55,6 +55,63 @@ def alphabet(rx):
     return out
 
 
+def witness(rx):
+    """one string the rule matches, built from the parsed pattern (literals, first class member, first alternative,
+    every optional / repeated part taken once)"""
+    def one(p):
+        out = []
+        for op, av in p:
+            op = str(op)
+            if op == 'LITERAL':
+                out.append(chr(av))
+            elif op == 'NOT_LITERAL':
+                out.append('a' if chr(av) != 'a' else 'b')
+            elif op == 'IN':
+                neg = any(str(o2) == 'NEGATE' for o2, _ in av)
+                if neg:
+                    out.append('a')
+                else:
+                    for o2, a2 in av:
+                        o2 = str(o2)
+                        if o2 == 'LITERAL':
+                            out.append(chr(a2))
+                            break
+                        if o2 == 'RANGE':
+                            out.append(chr(a2[0]))
+                            break
+                        if o2 == 'CATEGORY':
+                            out.append(CAT.get(str(a2), 'a'))
+                            break
+            elif op in ('MAX_REPEAT', 'MIN_REPEAT', 'POSSESSIVE_REPEAT'):
+                out.append(one(av[2]))
+            elif op == 'SUBPATTERN':
+                out.append(one(av[3]))
+            elif op == 'BRANCH':
+                out.append(one(av[1][0]))
+            elif op == 'ANY':
+                out.append('a')
+            elif op == 'GROUPREF':
+                out.append('$$')
+        return ''.join(out)
+    try:
+        return one(sp.parse(rx, re.IGNORECASE | re.UNICODE))
+    except Exception:
+        return ''
+
+
+def literal_prefixes(rx):
+    """prefixes of a witness string cut at word boundaries: strings that carry a match attempt past the rule's fixed
+    heads into its later loops, e.g. 'NOT', 'NOT ' for NOT\\s+NULL; 'AT', 'AT ', 'AT TIME', 'AT TIME ' for the TZ cast"""
+    w = witness(rx)
+    out = []
+    for i in range(1, len(w) + 1):
+        if i == len(w) or w[i].isspace() != w[i - 1].isspace():
+            p = w[:i]
+            if p not in out:
+                out.append(p)
+    return out[:8]
+
+
 def candidates(rules, tier='quick'):
     """yields dicts {rule, prefix, pump, reps, suffix}; rule = index into the table"""
     maxsym = 7 if tier == 'quick' else 9
@@ -65,7 +122,7 @@ def candidates(rules, tier='quick'):
             al = al + ['\n']
         non = next(c for c in ['\x01', '~', 'é'] if c not in al)
         pumps = [''.join(p) for k in range(1, maxlen + 1) for p in itertools.product(al, repeat=k)]
-        prefixes = [''] + al[:4]
+        prefixes = [''] + al[:4] + [p for p in literal_prefixes(rx) if p not in al[:4]]
         for pump in pumps:
             for pre in prefixes:
                 for suf in ('', non):
